@@ -80,6 +80,32 @@ def unbalanced_cut(rng, text, main_url):
     return res
 
 
+def double_include(rng, text, main_url):
+    """The same fragment included twice: a balanced range is duplicated in the text, and both
+    copies are replaced by %include of ONE resource.  -> (text with the range twice, resources)"""
+    lines = text.split("\n")
+    if lines and lines[-1] == "":
+        lines.pop()
+    ranges = gen.balanced_ranges(lines)
+    if not ranges:
+        return None
+    i, j = rng.choice(ranges)
+    frag = lines[i:j]
+    if any(l.strip().startswith("%") for l in frag):
+        return None
+    between = rng.choice([[], ["# between"], lines[j:j + 1] if j < len(lines) and gen.line_depths(lines)[j] == gen.line_depths(lines)[j + 1] else []])
+    twice = lines[:j] + between + frag + lines[j + len(between):] if between == lines[j:j + 1] and between else lines[:j] + between + frag + lines[j:]
+    name = rng.choice(["twice.conf", "sub/twice.conf"])
+    inc = "%%include %s" % name
+    if between == lines[j:j + 1] and between:
+        split = lines[:i] + [inc] + between + [inc] + lines[j + 1:]
+    else:
+        split = lines[:i] + [inc] + between + [inc] + lines[j:]
+    resources = {main_url: "".join(l + "\n" for l in split),
+                 model.url_join(main_url, name): "".join(l + "\n" for l in frag)}
+    return "".join(l + "\n" for l in twice), resources
+
+
 def compare(schema, text, resources, main=MAIN, expect_reject=False):
     """-> (inline outcome, split outcome, [(sig, detail)])"""
     inline = outcome(loadcheck.real_load(schema, text, url=main))
@@ -180,6 +206,16 @@ def run_shard(spec):
                         res.sample({"schema_xml": xml, "resources": resources, "inline_outcome": inline[0]})
                 for sig, d in fl:
                     res.fail(sig, {"schema": ast, "text": text, "resources": resources, "main": MAIN}, d)
+            di = double_include(rng, text, MAIN)
+            if di:
+                res.evaluations += 1
+                counters["same-fragment-included-twice"] += 1
+                twice_text, dres = di
+                i2, s2, fl = compare(schema, twice_text, dres)
+                counters["twice:" + i2[0]] += 1
+                res.nontrivial(key=[xml, sorted(dres.items())])
+                for sig, d in fl:
+                    res.fail(sig, {"schema": ast, "text": twice_text, "resources": dres, "main": MAIN}, d)
             if inline[0] == "ok":
                 ub = unbalanced_cut(rng, text, MAIN)
                 if ub:
